@@ -266,7 +266,14 @@ def run(ctx):
              if sname == "rec" and verdict == "incomplete" and logic.answer_kind(a).startswith("Ambig")]
     slg_c = [c for c, sname, a, verdict in suspects if sname == "slg" and verdict == "incomplete" and logic.answer_kind(a) == "NoSolution"]
     slg_h = [c for c, sname, occ, ha, fa in hsus if sname == "slg" and c.oracle and logic.answer_kind(ha) == "NoSolution"]
-    rec_in = dict(zip([id(c) for c in rec_c], class_codes("clsrec", rec_c, rec_class_expr)))
+    # F31: the recursive solver's ambiguity on an existential implied-bound sub-goal (class
+    # rec-ambig-existential-bound) also shows as history dependence: exactly one of {history, fresh} is Ambig*, the other Unique
+    def f31_shape(ha, fa):
+        ka, kf = logic.answer_kind(ha), logic.answer_kind(fa)
+        return (ka.startswith("Ambig") and kf == "Unique") or (kf.startswith("Ambig") and ka == "Unique")
+    rec_h = [c for c, sname, occ, ha, fa in hsus if sname == "rec" and f31_shape(ha, fa)]
+    rec_all = list({id(c): c for c in rec_c + rec_h}.values())
+    rec_in = dict(zip([id(c) for c in rec_all], class_codes("clsrec", rec_all, rec_class_expr)))
     slg_in = dict(zip([id(c) for c in slg_c + slg_h], class_codes("clsslg", slg_c + slg_h, slg_class_expr)))
     for c, sname, a, verdict in suspects:
         k = logic.answer_kind(a)
@@ -290,6 +297,12 @@ def run(ctx):
             if f:
                 ctx.known_finding(f, c.text)
                 stats["known:slg-cocycle-history"] += 1
+                continue
+        if sname == "rec" and f31_shape(ha, fa) and rec_in.get(id(c)):
+            f = ctx.match_known(None, "rec-ambig-existential-bound-history")
+            if f:
+                ctx.known_finding(f, c.text)
+                stats["known:rec-ambig-history"] += 1
                 continue
         ctx.violation({"kind": "history-differs-from-fresh" + (":leak" if c.kind == "nohyp" else ""), "solver": sname,
                        "program": eg.to_text(c.prog), "goal": c.text, "occurrence": occ,
@@ -331,7 +344,25 @@ def replay(ctx, obj):
         print(sname, "fresh:", out[sname][0], " after history:", out[sname][1])
     s = obj.get("solver", "slg")
     if obj.get("kind", "").startswith("history"):
-        return 1 if out[s][0] != out[s][1] else 0
+        if out[s][0] == out[s][1]:
+            return 0
+        fresh_k, hist_k = out[s][0].strip("(").split(" ")[0], out[s][1].strip("(").split(" ")[0]
+        f31 = s == "rec" and ((fresh_k.startswith("Ambig") and hist_k == "Unique") or (hist_k.startswith("Ambig") and fresh_k == "Unique"))
+        if f31:
+            # the class predicate is decided in Coq on the INPUT, rebuilt from the replay's text
+            ok, why = ctx.proof_stage("Props.C06", ["sat_if_exact"])
+            prog = eg.parse_program(obj["program"])
+            goal = eg.parse_goal(obj["goal"])
+            vs, hs, body = eg.split_if_goal(goal)
+            st = prog.symtab()
+            expr = "rec_ambig_class %d D %s %s" % (FUEL, sx.to_coq(eg.rho_model(vs)), sx.to_coq(eg.hyps_model(hs, st, tuple(vs))))
+            codes = eg.coq_codes_retry(ctx, "replaycls", {"D": ("decls", eg.to_decls(prog))}, [(["D"], logic.bb(expr))], IMPORTS, ["Props/C06.vo"])
+            print("rec_ambig_class on the goal's hypotheses:", codes[0] == 1)
+            f = ctx.match_known(None, "rec-ambig-existential-bound-history")
+            if codes[0] == 1 and f:
+                ctx.known_finding(f, obj["goal"])
+                return 0
+        return 1
     if obj.get("oracle") is not None:
         proved = out[s][0].startswith("(Unique")
         return 1 if proved != bool(obj["oracle"]) else 0
